@@ -344,6 +344,13 @@ def law_vcs(repo, ci, laws=("L1", "L2", "L3", "L6", "L6v", "L4a", "L5", "L5d", "
                 if e.primordial is not None and e.primordial is not e.value:
                     goal = z3.And(goal, T.origin(x) == T.origin(e.primordial.term))
                 vcs.append(VC(f"{C}:L6:evaluate#{j}", hyp + e.pc + e.defs, goal, {"law": "L6", "cls": C}))
+    if "L6" in laws:
+        for meth, ps in (("evaluate", E1), ("validate", V1), ("keys", K1), ("explain", X1)):
+            for j, e in enumerate(ps or []):
+                bad = [t for t in e.tags if t[0] == "user-exception-as-missing-option"]
+                if e.kind == "exc" and bad:
+                    vcs.append(VC(f"{C}:L6:user-exception-never-reported-as-missing-option:{meth}#{j}", hyp + e.pc + e.defs, z3.BoolVal(False),
+                                  {"law": "L6", "cls": C}))
     if "L6v" in laws:
         for meth, ps, cls in (("validate", V1, "EvaluationError"), ("keys", K1, "EvaluationError"), ("explain", X1, "InsufficientInformationError")):
             if ps is None:
